@@ -206,10 +206,27 @@ Definition tree_of_fan (f : fan) : value :=
 
 Definition populated (f : string) (v : value) : bool := vhas f v.
 
+(* protobuf-go's Merge does not copy a float that compares equal to 0, a negative zero included, although
+   such a field counts as populated; the merge model (Msg/ProtoOps.v) copies every populated field.
+   Written messages holding a negative zero are left to the oracle. *)
+Fixpoint has_negzero (v : value) {struct v} : bool :=
+  match v with
+  | VS (SF32 b) => (b =? 2147483648)%Z
+  | VS (SF64 b) => (b =? 9223372036854775808)%Z
+  | VS _ => false
+  | VM fs => (fix go (l : list (string * value)) : bool :=
+                match l with [] => false | (_, x) :: r => has_negzero x || go r end) fs
+  | VL l => (fix go (l : list value) : bool :=
+               match l with [] => false | x :: r => has_negzero x || go r end) l
+  | VMap kv => (fix go (l : list (scalar * value)) : bool :=
+                  match l with [] => false | (_, x) :: r => has_negzero x || go r end) kv
+  end.
+
 Definition hand_rule (ty : string) (h : hrule) (base : option value) (q : ureq) : option (value + Z) :=
   match u_res q with
   | None => None
   | Some res =>
+      if has_negzero res then None else
       match h with
       | HPlain resw => plain_write ty resw (u_um q) base res
       | HUnless flag resw => if populated flag (u_req q) then None else plain_write ty resw (u_um q) base res
